@@ -45,6 +45,9 @@ NEEDS = {
  "C10-method-names-dedupe-chains": ("C10", "two folders whose coder chains have the same length and the same first coder but differ behind it (DELTA+LZMA2 then BCJ+LZMA2): the summary omits the methods of the later chain"),
  "C14-placeholder-valid-empty-header": ("C14", "the process dies in a create session after the placeholder and before close() rewrites the signature header: the placeholder is a VALID empty start header, the torn file opens as an empty archive"),
  "C15-readlink-failure-swallowed": ("C15", "write() of a symlink whose readlink fails after lstat succeeded (link vanished / unreadable in between): the error is swallowed and a member with an empty target is stored"),
+ "C09-check-skips-unselected-symlink": ("C09", "an UNSELECTED symbolic-link member stored before a selected member of the same solid block: its bytes are not consumed, the next member is read from the wrong position (CrcError)"),
+ "C12-reset-clears-first-folder-only": ("C12", "an archive with two or more folders and the sequence decode; reset(); decode: folders after the first keep their exhausted decoder"),
+ "C16-canonical-keeps-dotdot-after-one": ("C16", "a name that stays inside but has '..' straight after one leading component (a/../x, a/..): writestr/writef reject it"),
 }
 NOTES = {
  "C03-commonprefix-containment": "caught (exit 1) while /repo still had the purely lexical containment; the later repair F29 adds a physical check behind the lexical one, which makes this slip harmless: at the final HEAD the agent's own demonstration passes with the change applied, so it no longer breaks the property (the final run shows the lexical obligation's counterexamples as not reproducing)",
